@@ -69,7 +69,7 @@ PROPS = {
             "db.put errors are ignored by the code and not modelled",
         ],
         "explanation": "Store actor modelled as kv map + obligations; theorems for every command sequence (read = last write, notify answered immediately or by the first later write, all waiters, exactly once, reopen keeps data); "
-                       "the engine drives the real Store (RocksDB) from several handles with forced enqueue order and compares every reply and wake-up step with the model and with a reference map.",
+                       "the engine drives the real Store (RocksDB) from several handles with forced enqueue order and compares every reply and wake-up step with the model and with a reference map. The engine also abandons pending notify_reads (owner drops the future) at the head/middle of a waiter queue, and drives a second handle from its own task while the store has a backlog larger than its command channel (issue order between callers).",
     },
     "C12": {
         "lean_modules": ["HotstuffModel.Properties.C12"],
@@ -83,7 +83,7 @@ PROPS = {
             "the code counts a DROPPED handle like an ACK (`let _ = wait_for.await`); C14 shows the reliable sender never drops a live handle",
         ],
         "explanation": "QuorumWaiter modelled as a sequential actor serving one batch at a time; theorems: forwarded only with quorum stake incl. self, at most once, exactly at the crossing step, FIFO across batches, >= f+1 honest stake among ackers (via C17); "
-                       "the engine drives the real QuorumWaiter with harness-made oneshot handles in every ACK order / silent subset and compares with the model and an independent stake monitor.",
+                       "the engine drives the real QuorumWaiter with harness-made oneshot handles in every ACK order / silent subset and compares with the model and an independent stake monitor. The engine ownbatch runs the real BatchMaker wired to the real QuorumWaiter as in Mempool::spawn with every other mempool on simnet: ACKs are released one at a time (slow peers answer earlier batches while the next one is out) and each ACK is attributed to the frame it answers; the batch must come out exactly when own + acknowledged stake reaches the threshold. The quorum test itself (`waiterQuorum`) is regenerated from quorum_waiter.rs on every run.",
     },
     "C03": {
         "lean_modules": ["HotstuffModel.Properties.C03"],
@@ -162,7 +162,7 @@ PROPS = {
         ],
         "explanation": "BatchMaker modelled as (cur, size) with events tx/timer for both build configurations; theorems for every event sequence, batch size (incl. 0) and tx content (incl. empty): sealed batches ++ open batch = accepted txs in order, "
                        "seal exactly at the threshold step / at timer expiry, no panic (benchmark build: given the length-first sample-tx test), batch encoding injective, Processor/handler use the hash of the exact bytes. "
-                       "Engine `batchmaker` drives the real BatchMaker + Processor in BOTH builds (default and --features benchmark) under virtual time and compares sealed bytes, store keys and digests.",
+                       "Engine `batchmaker` drives the real BatchMaker + Processor in BOTH builds (default and --features benchmark) under virtual time and compares sealed bytes, store keys and digests. The seal guards (`sealOnSize`, `sealOnTimer`) are regenerated from batch_maker.rs on every run and called by the model; received batches (stored and announced under the hash of their exact bytes, every frame ACKed once) are covered by Model/MempoolSync and the engine mempoolsync.",
     },
     "C02": {
         "lean_modules": ['HotstuffModel.Properties.C02'],
@@ -262,7 +262,7 @@ PROPS = {
             "netsim engine: real nodes (real node.rs wiring) on the in-memory simnet transport under tokio's paused virtual clock; harness proxies model links (latency >= 5 ms, cuts hang connections, no loss on healthy links)",
         ],
         "assumptions": ['the temporal claim is NOT proved (no fairness / real-time model of timers and TCP back-off); it is explored by simulation', 'virtual time: timers fire in deadline order; link latencies after stabilisation are 1-20 ms against a 1000 ms round timeout'],
-        "explanation": 'Proved for every state/input: the timer always yields a timeout for the current round; a quorum of verified timeouts forms and broadcasts a TC and advances the round; a leader entering its round via a TC requests exactly one proposal; voting is enabled for a safe block of the current round; TCs/QCs synchronise views. Explored: netsim runs 4-7 REAL nodes with every kind of <= f crash set, random crash instants and random pre-stabilisation delays/cuts; after stabilisation every live node must commit in each window of (4(f+1)+6) timeouts; commit logs must agree.',
+        "explanation": 'Proved for every state/input: the timer always yields a timeout for the current round; a quorum of verified timeouts forms and broadcasts a TC and advances the round; a leader entering its round via a TC requests exactly one proposal; voting is enabled for a safe block of the current round; TCs/QCs synchronise views. Explored: netsim runs 4-7 REAL nodes with every kind of <= f crash set, random crash instants and random pre-stabilisation delays/cuts; after stabilisation every live node must commit in each window of (4(f+1)+6) timeouts; commit logs must agree. Also proved: L7/L9 the good case through the whole of handle_proposal in every reachable state (a verified leader proposal on stored ancestors is voted and commits its grandparent when rounds are consecutive), L8/L10 leader rotation versus any m faulty authorities (at most m faulty-led rounds in a row; with n >= 3m+1 three consecutive non-faulty leaders in every window of n rounds). The netsim engine also plays a directed partial-broadcast crash.',
     },
     "C07": {
         "lean_modules": ['HotstuffModel.Properties.C07'],
@@ -274,7 +274,7 @@ PROPS = {
             "netsim engine: real nodes (real node.rs wiring) on the in-memory simnet transport under tokio's paused virtual clock; harness proxies model links (latency >= 5 ms, cuts hang connections, no loss on healthy links)",
         ],
         "assumptions": ["convergence 'once reconnected' is a liveness statement: explored by simulation, not proved"],
-        "explanation": "Proved for every state/input: a sync request from a member is answered with exactly the block stored under the digest (and stored blocks have the digest they are filed under); a block with a missing parent is parked, the parent requested from its author once, retried by broadcast; parked blocks resume only after the parent is stored; blocks enter the store only after their parents (oldest first). Explored: netsim isolates one real node for a random interval while the others commit (with/without view changes, slow first sync target) and requires its commit log to reach and equal the others'; the cons engine compares the single-node park/request/resume behaviour with the model.",
+        "explanation": "Proved for every state/input: a sync request from a member is answered with exactly the block stored under the digest (and stored blocks have the digest they are filed under); a block with a missing parent is parked, the parent requested from its author once, retried by broadcast; parked blocks resume only after the parent is stored; blocks enter the store only after their parents (oldest first). Explored: netsim isolates one real node for a random interval while the others commit (with/without view changes, slow first sync target) and requires its commit log to reach and equal the others'; the cons engine compares the single-node park/request/resume behaviour with the model. The engine syncretry runs the real Synchronizer with the DEFAULT retry delay at its real cadence (5 s ticks; the synchronizers read a tokio-driven clock in verification builds, hook H4): request to the author once, no retry before the delay, re-broadcast to all at the first tick past it and at every later one, resume exactly once when the parent is stored.",
     },
     "C13": {
         "lean_modules": ['HotstuffModel.Properties.C13'],
@@ -286,6 +286,6 @@ PROPS = {
             "netsim engine: real nodes (real node.rs wiring) on the in-memory simnet transport under tokio's paused virtual clock; harness proxies model links (latency >= 5 ms, cuts hang connections, no loss on healthy links)",
         ],
         "assumptions": ['the end-to-end claim is a liveness statement over the whole system: explored by simulation, not proved', 'per-hand-over facts come from C11 (batching), C12 (quorum ACK), C08 (availability), C16 (store)'],
-        "explanation": "Proved for every state/input: a digest from the mempool stays in the proposer's buffer until it goes into the node's next proposal or a Cleanup names it; a block with missing batches asks for exactly the missing ones from its author, is parked, and resumes exactly when all of them are stored. Explored: netsim submits client transactions to several real nodes (one node misses another's batch broadcasts) and checks on the real stores that every transaction is in a batch referenced by a block committed at EVERY node, readable under its digest.",
+        "explanation": "Proved for every state/input: a digest from the mempool stays in the proposer's buffer until it goes into the node's next proposal or a Cleanup names it; a block with missing batches asks for exactly the missing ones from its author, is parked, and resumes exactly when all of them are stored. Explored: netsim submits client transactions to several real nodes (one node misses another's batch broadcasts) and checks on the real stores that every transaction is in a batch referenced by a block committed at EVERY node, readable under its digest. The peer-facing side of the mempool (Processor, Helper, Synchronizer, receiver dispatch) is modelled in Model/MempoolSync with 14 theorems (request exactly the new digests to the target, pending iff requested and not stored/cleaned, no second request while pending, retry exactly the overdue digests, a stored batch clears its request, helper replies with exactly the stored bytes) and driven in lock-step against a real Mempool::spawn by the engine mempoolsync (virtual clock via hook H4, incl. a retry delay longer than the tick period).",
     },
 }
